@@ -114,6 +114,10 @@ func genWireCmd(t *rapid.T, binary bool) wire.Cmd {
 		c.Key, c.Exptime = key("key"), genU32(t, "ttl")
 	case wire.Get, wire.GetE:
 		n := rapid.IntRange(1, 6).Draw(t, "nkeys")
+		if rapid.IntRange(0, 7).Draw(t, "manyKeys") == 0 {
+			// long key lists: a text get line well beyond any 4 KiB buffer
+			n = rapid.IntRange(17, 64).Draw(t, "nkeysMany")
+		}
 		for i := 0; i < n; i++ {
 			c.Keys = append(c.Keys, key("gkey"))
 		}
